@@ -157,6 +157,29 @@ func c20AliasOp(p *fx.Pool) *fx.PoolOp {
 	return o
 }
 
+var c20JSONPatch = []interface{}{fx.JSONPatch(fx.JOp("add", "/x", "from-json-patch"))}
+
+// c20JSONOp builds the update that is only valid under the first protocol version (ietf-json-patch is disabled in the second).
+func c20JSONOp(p *fx.Pool) *fx.PoolOp {
+	k := p.Keys
+	next := fx.Commit(k["u1"], p.Code)
+	s := &fx.OpSpec{Type: "update", Suffix: p.Suffix, SignKey: k["u0"], NextUpdate: next, Patches: c20JSONPatch, Code: p.Code}
+	o := &fx.PoolOp{ID: "Ujson", Type: operation.TypeUpdate, Req: s.Build(), Kind: "legit"}
+	o.Abs = sidetree.Op{ID: "Ujson", Type: "update", ParseOK: true, Reveals: fx.Commit(k["u0"], p.Code), Authorized: true, NextUpdate: next, Delta: sidetree.DeltaOK, Patches: c20JSONPatch}
+	return o
+}
+
+// c20Valid tells whether the operation is valid under the protocol version with the given genesis time.
+func c20Valid(id string, version uint64, twoVer bool) bool {
+	switch id {
+	case "Ualias":
+		return twoVer && version == c20G
+	case "Ujson":
+		return version == 0
+	}
+	return true
+}
+
 func newC20Node(cfg c20Config, pools []*fx.Pool) *c20Node {
 	n := &c20Node{cfg: cfg, pools: pools, cas: fx.NewMemCAS(), store: fx.NewStore(), queue: &opqueue.MemQueue{}, pos: make([]int, len(cfg.Scripts)), created: map[int]*document.ResolutionResult{}}
 	n.ledger = &c20Ledger{ch: make(chan []txn.SidetreeTxn, 4)}
@@ -173,6 +196,8 @@ func newC20Node(cfg c20Config, pools []*fx.Pool) *c20Node {
 		if !second {
 			p.MultihashAlgorithms = []uint{fx.SHA256}
 			p.Patches = []string{"replace", "add-public-keys", "remove-public-keys", "add-services", "remove-services", "ietf-json-patch"}
+		} else {
+			p.Patches = []string{"replace", "add-public-keys", "remove-public-keys", "add-services", "remove-services", "add-also-known-as", "remove-also-known-as"}
 		}
 		return fx.NewVersion(p, &fx.VersionOpts{CAS: n.cas, Store: n.store, TxnProcOpts: tpOpts})
 	}
@@ -208,6 +233,9 @@ func (n *c20Node) close() { n.obs.Stop() }
 func (n *c20Node) opFor(d int, id string) *fx.PoolOp {
 	if id == "Ualias" {
 		return c20AliasOp(n.pools[d])
+	}
+	if id == "Ujson" {
+		return c20JSONOp(n.pools[d])
 	}
 	return n.pools[d].Get(id)
 }
@@ -266,7 +294,7 @@ func (m *c20Model) visible(d int) []*sidetree.Op {
 
 // c20VersionAdjust interprets the operation under the protocol version recorded at acceptance.
 func c20VersionAdjust(a *sidetree.Op, o *c20MOp) {
-	if o.op.ID == "Ualias" && o.version == 0 {
+	if !c20Valid(o.op.ID, o.version, true) {
 		a.Delta = sidetree.DeltaInvalid
 	}
 }
@@ -279,8 +307,8 @@ func (m *c20Model) resolve(d int) (*sidetree.State, error) {
 func (m *c20Model) submit(d int, op *fx.PoolOp) bool {
 	cur := m.current()
 	ok := true
-	if op.ID == "Ualias" && cur == 0 {
-		ok = false // patch action not enabled in the first version
+	if !c20Valid(op.ID, cur, m.cfg.TwoVer) {
+		ok = false // a patch action of the request is not enabled in the current version
 	}
 	if ok && op.Type != operation.TypeCreate {
 		st, err := m.resolve(d)
@@ -511,11 +539,11 @@ func c20Visible(m *c20Model, d int) []string {
 
 func c20(r *hx.Run) {
 	fx.Quiet()
-	r.Rule = "breadth-first search over event sequences {submit next scripted request of DID d, monitor tick, timeout tick, observe (deliver all pending ledger transactions), advance (switch to the second protocol version)} on a node assembled only from the library's real parts (DocumentHandler with default decorator -> Writer/cutter/MemQueue -> OperationHandler -> CAS -> harness ledger -> Observer -> TxnProcessor/OperationProvider -> store -> processor -> didtransformer), de-duplicated on the reference state; every transition replays the sequence on a fresh node in lock-step with the reference (acceptance rule, queue/batch model, ledger, ref/sidetree resolution, independent projection); configurations vary scripts (C U U / C U R U / C D U / C R D / C U(alias)), unpublished-operation store and one or two protocol versions. Non-trivial: states in which at least one DID resolves with an operation applied after its create."
+	r.Rule = "breadth-first search over event sequences {submit next scripted request of DID d, monitor tick, timeout tick, observe (deliver all pending ledger transactions), advance (switch to the second protocol version)} on a node assembled only from the library's real parts (DocumentHandler with default decorator -> Writer/cutter/MemQueue -> OperationHandler -> CAS -> harness ledger -> Observer -> TxnProcessor/OperationProvider -> store -> processor -> didtransformer), de-duplicated on the reference state; every transition replays the sequence on a fresh node in lock-step with the reference (acceptance rule, queue/batch model, ledger, ref/sidetree resolution, independent projection); configurations vary scripts (C U U / C U R U / C D U / C R D / C U(alias) / C U(json-patch); the two protocol versions each enable a patch action the other lacks), unpublished-operation store and one or two protocol versions. Non-trivial: states in which at least one DID resolves with an operation applied after its create."
 	configs := []c20Config{
 		{"AB|nounpub|1ver", [][]string{{"C", "U01", "U12"}, {"C", "U01", "R01", "V01"}}, false, false, 2},
 		{"CD|unpub|1ver", [][]string{{"C", "D0", "U01"}, {"C", "R01", "D1"}}, true, false, 2},
-		{"EA|nounpub|2ver", [][]string{{"C", "Ualias", "U12"}, {"C", "U01", "U12"}}, false, true, 2},
+		{"FE|nounpub|2ver", [][]string{{"C", "Ujson", "U12"}, {"C", "Ualias", "U12"}}, false, true, 2},
 		{"BE|unpub|2ver", [][]string{{"C", "U01", "R01", "V01"}, {"C", "Ualias"}}, true, true, 2},
 	}
 	depth := 8
@@ -523,6 +551,8 @@ func c20(r *hx.Run) {
 		depth = 11
 		configs = append(configs,
 			c20Config{"AB|unpub|1ver", [][]string{{"C", "U01", "U12"}, {"C", "U01", "R01", "V01"}}, true, false, 2},
+			c20Config{"EA|nounpub|2ver", [][]string{{"C", "Ualias", "U12"}, {"C", "U01", "U12"}}, false, true, 2},
+			c20Config{"FA|unpub|2ver", [][]string{{"C", "Ujson", "U12"}, {"C", "U01", "U12"}}, true, true, 2},
 			c20Config{"CD|nounpub|2ver", [][]string{{"C", "D0", "U01"}, {"C", "R01", "D1"}}, false, true, 2},
 			c20Config{"AB|nounpub|1ver|max3", [][]string{{"C", "U01", "U12"}, {"C", "U01", "R01", "V01"}}, false, false, 3},
 			c20Config{"AE|unpub|2ver|max1", [][]string{{"C", "U01", "U12"}, {"C", "Ualias"}}, true, true, 1},
